@@ -86,6 +86,12 @@ let run_case op t =
      | "cast" | "tp_cast" ->
        let c = next_z t in
        (leg1 (f p.cast c), if pok && f p.cast_ok c then okz (cast_spec n1 d1 n2 d2 c) else "na")
+     | "castw" ->
+       (* C12_duration_cast_total: count * numerator fits intmax_t -> the truncated quotient modulo 2^w2 *)
+       let c = next_z t in
+       let okd = pok && fits w1 c &&
+                 (match f p.cf with Val (cn, _) -> fits (zi 64) (Z.mul c cn) | _ -> false) in
+       (leg1 (f p.cast c), if okd then okz (wrap_rep w2 (cast_spec n1 d1 n2 d2 c)) else "na")
      | "floor" ->
        let c = next_z t in
        (leg1 (f p.floor c), if pok && f p.floor_ok c then okz (floor_spec n1 d1 n2 d2 c) else "na")
